@@ -100,5 +100,5 @@ Definition run (fn : string) (args : list string) : string :=
     show_x (exchange_stream (decodes_of (arg args 3)) (undec (arg args 0)) (chunks (arg args 1) (arg args 2)))
   else if String.eqb fn "xdgram" then
     show_x (exchange_dgram (decodes_of (arg args 3)) (undecn (arg args 1)) (undec (arg args 0))
-                           (map unhex (split_on comma (arg args 2))))
+                           (map (fun x => unhex (tail x)) (split_on comma (arg args 2))))
   else "unknown-fn".
